@@ -27,6 +27,10 @@ QUERIES = [
     "$.xs[?# == $.k || # == _.k]",
     "$.xs[?@.a in [1, 2] || $.k in _.xs]",
     "$[?@[?@.a == $.k]]",
+    "$.xs[?@.a == 1 && ($.k == 1 || $.k == true)]",
+    "$.xs[?@.a != 0 && ($.k in [0] || $.k in [false])]",
+    "$.xs[?($.k == 0 || $.k == false) && # >= 0]",
+    "$.xs[?@.a == $.k || $.k == null || $.k == 0]",
 ]
 
 
@@ -35,7 +39,7 @@ def plan(tier: str, seed: int) -> Plan:
     T = 200 if thorough else 50
     conds: List[Condition] = []
     for q in QUERIES:
-        conds.append(Condition(f"cache:{q}", "cache", H, "cache_eq", {"qtext": q}, T,
+        conds.append(Condition(f"cache:{q}", "cache", H, "cache_eq", {"qtext": q, "kleaf": "nbi" if ("true" in q or "false" in q or "null" in q) else "oi"}, T,
                                bounds="document {k, xs:[<=3 candidate objects], a} with 4 Optional[int] leaves; filter context with an Optional[int]"))
     hq = QUERIES if thorough else QUERIES[:3] + QUERIES[5:7] + QUERIES[11:13]
     for q in hq:
